@@ -371,6 +371,11 @@ func (a *aclList) RecordsAfter(ctx context.Context, id string) (records []*conse
 		if !ok {
 			return nil, ErrNoSuchRecord
 		}
+		if recIdx < 1 {
+			// storage orders are 1-based (the root has order 1); asking after the root must
+			// serve the whole log on every Storage implementation
+			recIdx = 1
+		}
 	}
 	err = a.storage.GetAfterOrder(ctx, recIdx, func(ctx context.Context, record StorageRecord) (shouldContinue bool, err error) {
 		raw := make([]byte, 0, len(record.RawRecord))
